@@ -4294,6 +4294,8 @@ ALL += [C03_BALANCED_HOLDOUT]
 # reaches load_h5 / concat; the loads, correlation_matrix and the three metric methods = the components of the library record;
 # os.path.join(dir, "<literal>") for the six literal file names = the pair (dir, name); os.makedirs(d, exist_ok=True), the five plotting
 # calls and json.dump(d, f, indent=4) into open(path, "w") = one event each; the dict literal with exactly the three keys = the summary record.
+# C18: the two regplot-drawing calls carry their `seed=` keyword (Some s; the call without the keyword = None, seaborn's unseeded
+# bootstrap - the form main() had before the repair "fix: analyze_model_evaluation ignored --seed"); args.seed is the fifth field.
 _AN_T = "(an_event Ev Co F)"
 _AN_NAMES = [("sample_prediction_correlation.pdf", "N_heat"), ("predicted_vs_observed_scatterplot.pdf", "N_scatter"),
              ("predicted_vs_observed_by_sample_scatterplot.pdf", "N_scatter_sample"), ("per_sample_violin_plot.pdf", "N_violin"),
@@ -4306,7 +4308,7 @@ CLI_ANALYZE = dict(
     returns="list " + _AN_T,
     vars={"written": "list " + _AN_T, "args": "an_args", "theta_holder": "handle", "theta_holders": "list Th", "thetas": "Th", "screen": "Scr",
           "me": "Ev", "corr": "Co", "summary_statistics": "(an_summary F)", "f": "an_file"},
-    fields=_arg_fields("an_args", "an", {"model_evaluation": "path", "screen": "path", "thetas": "list path", "output_dir": "path"}),
+    fields=_arg_fields("an_args", "an", {"model_evaluation": "path", "screen": "path", "thetas": "list path", "output_dir": "path", "seed": "Z"}),
     prims=[("get_args()", "argv", "an_args"),
            _HOLDER_HANDLE,
            ("Screen.load_h5(__p)", "!an_load_screen L {p}", "Scr", {"p": "path"}),
@@ -4323,9 +4325,13 @@ CLI_ANALYZE = dict(
     contexts=[("open(__p, 'w')", "{p}", "an_file", {"p": "an_file"})],
     typed_effects=[("os.makedirs(__d, exist_ok=True)", "written'", "{state} ++ [AnMkdir {d}]", {"d": "path"}),
                    ("plotting.plot_correlation_heatmap(__c, __f)", "written'", "{state} ++ [AnHeat {c} {f}]", {"c": "Co", "f": "an_file"}),
-                   ("plotting.predicted_vs_observed_scatterplot(__e, __f)", "written'", "{state} ++ [AnScatter {e} {f}]", {"e": "Ev", "f": "an_file"}),
-                   ("plotting.predicted_vs_observed_scatterplot_per_sample(__e, __f)", "written'", "{state} ++ [AnScatterSample {e} {f}]",
+                   ("plotting.predicted_vs_observed_scatterplot(__e, __f)", "written'", "{state} ++ [AnScatter {e} {f} None]", {"e": "Ev", "f": "an_file"}),
+                   ("plotting.predicted_vs_observed_scatterplot(__e, __f, seed=__s)", "written'", "{state} ++ [AnScatter {e} {f} (Some {s})]",
+                    {"e": "Ev", "f": "an_file", "s": "Z"}),
+                   ("plotting.predicted_vs_observed_scatterplot_per_sample(__e, __f)", "written'", "{state} ++ [AnScatterSample {e} {f} None]",
                     {"e": "Ev", "f": "an_file"}),
+                   ("plotting.predicted_vs_observed_scatterplot_per_sample(__e, __f, seed=__s)", "written'",
+                    "{state} ++ [AnScatterSample {e} {f} (Some {s})]", {"e": "Ev", "f": "an_file", "s": "Z"}),
                    ("plotting.per_sample_violin_plot(__e, __f)", "written'", "{state} ++ [AnViolin {e} {f} None]", {"e": "Ev", "f": "an_file"}),
                    ("plotting.per_sample_violin_plot(__e, __f, percentile=__n)", "written'", "{state} ++ [AnViolin {e} {f} (Some {n})]",
                     {"e": "Ev", "f": "an_file", "n": "Z"}),
